@@ -341,9 +341,13 @@ DropHandle(id) ==
 Publish(s) == IF s + 1 > visible THEN s + 1 ELSE visible
 
 \* Keyspace::insert / remove on a live keyspace
+\* write stall (local_backpressure): a writer sleeps while its keyspace has 4 or more sealed
+\* memtables queued - modelled as the write being disabled until a flush made room
+NoStall(id) == Len(lsm[id].sl) < 4
+
 Write(n, k, isDel) ==
     /\ nops < MaxOps
-    /\ kmap[n] # 0
+    /\ kmap[n] # 0 /\ NoStall(kmap[n])
     /\ isDel => EnRemove
     /\ LET id == kmap[n]
            s  == seqno
@@ -365,7 +369,7 @@ Write(n, k, isDel) ==
 BatchCommit(n1, k1, d1, n2, k2, d2) ==
     /\ EnBatch
     /\ nops < MaxOps
-    /\ kmap[n1] # 0 /\ kmap[n2] # 0
+    /\ kmap[n1] # 0 /\ kmap[n2] # 0 /\ NoStall(kmap[n1]) /\ NoStall(kmap[n2])
     /\ (d1 \/ d2) => EnRemove
     /\ LET s  == seqno
            v  == nops + 1
@@ -754,6 +758,24 @@ MayReplayOverIngested(js, known) ==
               /\ \/ \E z \in 1..Len(r.clears) : r.clears[z] = id
                  \/ \E z \in 1..Len(r.items) : r.items[z].id = id}
 
+\* Known finding D24: an item the compaction filter REMOVED (tombstone evicted at the last level)
+\* had the highest seqno of the flushed data: the tables' highest persisted seqno drops below
+\* its journal record, which is therefore not recognized as "already persisted" and replayed at
+\* the next recovery - the item is back in its original form.
+FilterReplayRisk(id, k) ==
+    /\ id \in LiveIds /\ filt[id]
+    /\ FilterEntry(Entry(k, 0, "V", 1, FALSE)).t = "T"           \* the filter's verdict for k is Remove
+    /\ \E n \in LiveNames : kmap[n] = id /\ ref[n][k] # NoVal /\ ScanRead(id, k, Inf) = NoVal
+    /\ \E x \in 1..Len(journals) : \E y \in 1..Len(journals[x].recs) :
+          LET r == journals[x].recs[y] IN
+          /\ \E z \in 1..Len(r.items) : r.items[z].id = id /\ r.items[z].k = k /\ r.items[z].t = "V"
+          /\ ~(HighestPersisted(lsm[id]) # 0 /\ HighestPersisted(lsm[id]) - 1 >= r.s)
+          \* only the active journal is replayed unconditionally; a sealed journal is replayed
+          \* if its watermark is not covered either
+          /\ (x = Len(journals) \/ TRUE)
+FindingD24 == \E id \in Ids, k \in Keys : FilterReplayRisk(id, k)
+NoFinding_D24 == ~FindingD24
+
 CloseReopen ==
     /\ nreopen < MaxReopen
     /\ LET R == Rec IN
@@ -772,7 +794,8 @@ CloseReopen ==
        /\ frozen' = frozen
        /\ taint' = (taint \cap R.known) \cup R.tnt
        /\ mtaint' = (mtaint \cap R.known) \cup MayReplayOverIngested(journals, R.known)
-       /\ kf' = IF \E s \in JournalSeqnos(journals) : R.sq <= s THEN kf \cup {"D12"} ELSE kf
+       /\ kf' = (IF \E s \in JournalSeqnos(journals) : R.sq <= s THEN kf \cup {"D12"} ELSE kf)
+                \cup (IF FindingD24 THEN {"D24"} ELSE {})
        /\ last' = [a |-> "Reopen", fq |-> flushq']
        /\ filt' = [i \in Ids |-> i \in R.known /\ MetaName(meta, i) \in FilterNames]
     /\ nreopen' = nreopen + 1
@@ -882,8 +905,17 @@ FilteredFormOnly ==
             /\ PointRead(kmap[n], k, Inf) = v
 AssignedIffAssigner == \A n \in LiveNames : filt[kmap[n]] <=> (n \in FilterNames)
 \* a key observed in filtered form stays so until it is written again
+\* (also across close + reopen; waived only for the signature of the open finding D24)
 FilteredIsSticky ==
-    [][\A n \in Names : (kmap[n] # 0 /\ kmap'[n] = kmap[n] /\ filt[kmap[n]] /\ last'.a \notin {"Reopen"}) =>
+    [][\A n \in Names : (kmap[n] # 0 /\ kmap'[n] = kmap[n] /\ filt[kmap[n]]) =>
+        \A k \in Keys :
+            (/\ ref'[n][k] = ref[n][k] /\ nops' = nops
+             /\ ScanRead(kmap[n], k, Inf) # ref[n][k]
+             /\ ~(last'.a = "Reopen" /\ FilterReplayRisk(kmap[n], k))) =>
+                (ScanRead(kmap[n], k, Inf))' = ScanRead(kmap[n], k, Inf)]_vars
+\* the same without the waiver (signature run)
+FilteredIsStickyStrict ==
+    [][\A n \in Names : (kmap[n] # 0 /\ kmap'[n] = kmap[n] /\ filt[kmap[n]]) =>
         \A k \in Keys :
             (/\ ref'[n][k] = ref[n][k] /\ nops' = nops
              /\ ScanRead(kmap[n], k, Inf) # ref[n][k]) =>
